@@ -312,9 +312,10 @@ func (u *Upstream) run(isResume bool) error {
 			for seqNum, dpgs := range m {
 				u.mu.Lock()
 				dpg, ids := dpgs.toUpstreamDataPointGroups(u.revDataIDAliases)
+				idAlias, wireConn := u.idAlias, u.wireConn
 				u.mu.Unlock()
 				chunk := &message.UpstreamChunk{
-					StreamIDAlias: u.idAlias,
+					StreamIDAlias: idAlias,
 					DataIDs:       ids,
 					StreamChunk: &message.StreamChunk{
 						SequenceNumber:  seqNum,
@@ -325,7 +326,7 @@ func (u *Upstream) run(isResume bool) error {
 				u.mu.Lock()
 				u.upstreamChunkResultChs[chunk.StreamChunk.SequenceNumber] = resultCh
 				u.mu.Unlock()
-				u.sendChunkAndWaitAck(ctx, chunk, resultCh)
+				u.sendChunkAndWaitAck(ctx, wireConn, chunk, resultCh)
 				u.logger.Debugf(u.ctx, "Resent data point groups[seqNum=%v, count=%v].", seqNum, len(dpg))
 			}
 			return nil
@@ -487,14 +488,13 @@ func (u *Upstream) flush(ctx context.Context) error {
 
 	resultCh := make(chan *message.UpstreamChunkResult, 1) // buffered: the ack dispatcher hands the result over while holding the stream lock and must never wait for a receiver
 	u.upstreamChunkResultChs[msgChunk.StreamChunk.SequenceNumber] = resultCh
-	go u.sendChunkAndWaitAck(ctx, msgChunk, resultCh)
+	// the chunk carries the stream alias of the current wire connection: it must go out on that
+	// connection and no other (after a resume the same alias may belong to another stream)
+	go u.sendChunkAndWaitAck(ctx, u.wireConn, msgChunk, resultCh)
 	return nil
 }
 
-func (u *Upstream) sendChunkAndWaitAck(ctx context.Context, msgChunk *message.UpstreamChunk, resultCh chan *message.UpstreamChunkResult) {
-	u.mu.RLock()
-	wireConn := u.wireConn
-	u.mu.RUnlock()
+func (u *Upstream) sendChunkAndWaitAck(ctx context.Context, wireConn *wire.ClientConn, msgChunk *message.UpstreamChunk, resultCh chan *message.UpstreamChunkResult) {
 	err := wireConn.SendUpstreamChunk(u.ctx, msgChunk)
 	if err != nil {
 		u.logger.Warnf(u.ctx, "failed to send upstream chunk[seq:%v]: %+v", msgChunk.StreamChunk.SequenceNumber, err)
@@ -691,13 +691,18 @@ func (u *Upstream) resume(newConn *wire.ClientConn, generation uint64) error {
 	if !u.state.Is(streamStatusResuming) {
 		return fmt.Errorf("invalid state want[%v] but[%v]", streamStatusResuming, u.state.Current())
 	}
+	// No chunk is cut while the stream is resuming (the flush loop is not running), so the wire
+	// connection can be switched before the new alias is known; chunks cut earlier keep the
+	// connection they were cut for.
+	u.mu.Lock()
 	u.wireConn = newConn
+	u.mu.Unlock()
 
 	var resp *message.UpstreamResumeResponse
 	var resErr error
 
 	retry.Do(func() (end bool) {
-		resp, resErr = u.wireConn.SendUpstreamResumeRequest(u.ctx, &message.UpstreamResumeRequest{
+		resp, resErr = newConn.SendUpstreamResumeRequest(u.ctx, &message.UpstreamResumeRequest{
 			StreamID: u.ID,
 		}, u.Config.QoS)
 		if resErr != nil {
@@ -719,7 +724,7 @@ func (u *Upstream) resume(newConn *wire.ClientConn, generation uint64) error {
 		return errors.Errorf("failed send upstream resume request: %w", resErr)
 	}
 
-	ch, err := u.wireConn.SubscribeUpstreamChunkAck(u.ctx, resp.AssignedStreamIDAlias)
+	ch, err := newConn.SubscribeUpstreamChunkAck(u.ctx, resp.AssignedStreamIDAlias)
 	if err != nil {
 		return errors.Errorf("failed to SubscribeUpstreamChunkAck: %w", err)
 	}
